@@ -99,8 +99,8 @@ def run(ctx):
                 sel = rng.sample(sel, 12000)
         else:
             sel = cands
-        # plus some business days (identity) and NONE calendar
-        sel = sel + [rng.choice(all_dmy) for _ in range(200)]
+        # plus some business days (identity) and NONE calendar; and the last day of the domain (corpus)
+        sel = sel + [rng.choice(all_dmy) for _ in range(200)] + [(31, 12, 2199), (1, 1, 1901)]
         for cv in convs:
             for t in sel:
                 dt = date_of(t)
@@ -178,10 +178,18 @@ def compare(ctx, comp, ops, impl, drivers_ok, spec_ok, nontriv, exhaustive=False
     for i, op in enumerate(ops):
         if spec is not None and spec[i] != impl[i]:
             nbad_spec += 1
-            if nbad_spec <= 5:
+            fnd = None
+            sp = spec[i].split()
+            q = op.split()
+            crosses = (len(sp) == 3 and sp[2].isdigit() and int(sp[2]) >= 2200) or \
+                (op[0] == 'A' and q[-1] == '2199' and q[-2] == '12' and q[2] in ('2', '3', '5'))
+            if impl[i] == 'E:IndexError' and op[0] in 'AN' and crosses:
+                # the walk leaves 2199: the Easter table ends there and the lookup raises IndexError
+                fnd = 'C14/walk-past-2199-easter-table-end'
+            if nbad_spec <= 5 or fnd:
                 ctx.violation(f'{comp}: implementation disagrees with the specification',
                               {'op': op, 'implementation': impl[i], 'spec': spec[i],
-                               'model': model[i] if model else None}, clause=comp)
+                               'model': model[i] if model else None}, finding=fnd, clause=comp)
         if model is not None and model[i] != impl[i]:
             nbad_model += 1
             if spec is None or spec[i] == impl[i]:
